@@ -219,21 +219,27 @@ func (ra *RouteAuthenticator) Authenticate(req *http.Request, route *MatchedRout
 	// iterate in proper order
 	var lastResult interface{}
 	for _, scheme := range ra.Schemes {
-		if authenticator, ok := ra.Authenticator[scheme]; ok {
-			applies, princ, err := authenticator.Authenticate(&security.ScopedAuthRequest{
-				Request:        req,
-				RequiredScopes: ra.Scopes[scheme],
-			})
-			verifhook.At("mw.auth.scheme")
-			if !applies {
-				return false, nil, nil
-			}
-			if err != nil {
-				route.Authenticator = ra
-				return true, nil, err
-			}
-			lastResult = princ
+		authenticator, ok := ra.Authenticator[scheme]
+		if !ok {
+			continue
 		}
+		applies, princ, err := authenticator.Authenticate(&security.ScopedAuthRequest{
+			Request:        req,
+			RequiredScopes: ra.Scopes[scheme],
+		})
+		verifhook.At("mw.auth.scheme")
+		if !applies {
+			return false, nil, nil
+		}
+		if err != nil {
+			route.Authenticator = ra
+			return true, nil, err
+		}
+		if princ == nil {
+			// every scheme of the requirement must yield a principal, whatever the order of evaluation
+			return true, nil, nil
+		}
+		lastResult = princ
 	}
 	route.Authenticator = ra
 	return true, lastResult, nil
